@@ -71,3 +71,49 @@ Proof. vm_compute. reflexivity. Qed.
 
 Example ex_cover : deps_cover_uses (ex_g true).
 Proof. apply deps_cover_uses_b_sound. vm_compute. reflexivity. Qed.
+
+(* ---- purity: the hypotheses are satisfiable and the semantics is not
+   trivially silent ---- *)
+From V Require Import C04.Purity C04.PuritySem C04.PurityMain.
+Local Open Scope Z_scope.
+
+Definition ex_unbound (r : nat) : bool := Nat.eqb r 7.          (* identifier 7 is an unbound global *)
+Definition ex_env (r : nat) : option value := Some (VNum 1).      (* every declared identifier is initialised *)
+Definition ex_glob (r : nat) : option value := None.              (* ... and global 7 does not exist *)
+Definition ex_imp (r : nat) : option value := Some VUndef.
+Definition ex_noisy_toprim (id : nat) : outcome := ([42], Ok (VNum 0)).   (* user valueOf: emits probe 42 *)
+Definition ex_eval := eval ex_unbound ex_env ex_glob ex_imp VUndef ex_noisy_toprim
+  (fun _ => ([43], Throw)) (fun _ _ => ([44], Ok VUndef)) (fun _ => ([45], Throw)) (fun _ _ => ([46], Throw))
+  (fun _ _ _ => true) (fun _ _ => true).
+
+(* typeof x7 !== "undefined" && x7   -- removable, and silent although x7 does not exist *)
+Definition ex_guarded : node :=
+  EBinary BAnd (EBinary BStrictNe (EUnary UTypeof (EIdent 7 false false) true) (EStr undefined_str))
+               (EIdent 7 false false).
+Example ex_guarded_removable : can_remove ex_unbound ex_guarded = true /\ plain ex_guarded = true.
+Proof. vm_compute. auto. Qed.
+Example ex_guarded_silent : ex_eval ex_guarded = ([], Ok (VBool false)).
+Proof. vm_compute. reflexivity. Qed.
+
+(* the wrong polarity  typeof x7 === "undefined" && x7  is NOT removable, and it throws *)
+Definition ex_wrong : node :=
+  EBinary BAnd (EBinary BStrictEq (EUnary UTypeof (EIdent 7 false false) true) (EStr undefined_str))
+               (EIdent 7 false false).
+Example ex_wrong_kept : can_remove ex_unbound ex_wrong = false /\ ex_eval ex_wrong = ([], Throw).
+Proof. vm_compute. auto. Qed.
+
+(* `${ {valueOf..} }` and  obj < 1 : not removable, and the semantics shows the probe *)
+Example ex_template_kept :
+  can_remove ex_unbound (ETemplate None false [EObject []]) = false /\
+  ex_eval (ETemplate None false [EObject []]) = ([42], Ok (VStr [])).
+Proof. vm_compute. auto. Qed.
+Example ex_lt_kept :
+  can_remove ex_unbound (EBinary BLt (EObject []) (ENum 1)) = false /\
+  ex_eval (EBinary BLt (EObject []) (ENum 1)) = ([42], Ok (VBool true)).
+Proof. vm_compute. auto. Qed.
+(* [1, `a${2}`, x3 === null, -5n < 6n] : removable and silent *)
+Example ex_pure_literal :
+  let e := EArray [ENum 1; ETemplate None false [ENum 2]; EBinary BStrictEq (EIdent 3 false false) ENull;
+                   EBinary BLt (EUnary UNeg (EBigInt 5) false) (EBigInt 6)] in
+  can_remove ex_unbound e = true /\ plain e = true /\ ex_eval e = ([], Ok (VObj 0)).
+Proof. vm_compute. auto. Qed.
